@@ -961,10 +961,41 @@ MODEL_STATE = {'pav': ('_coefs',), 'borda': ('rank_scorer',), 'rankval': ('rank_
                'scoreval': ('sum_checkers',)}
 
 
+def _class_attrs(cls):
+    """data attributes defined on the library classes of the MRO (state shared by ALL instances)"""
+    out = []
+    for k in cls.__mro__:
+        if not getattr(k, '__module__', '').startswith('votelib'):
+            continue
+        for n, v in vars(k).items():
+            if n.startswith('__') or callable(v) or isinstance(v, (staticmethod, classmethod, property, types.MemberDescriptorType)):
+                continue
+            if n in ('_abc_impl',):
+                continue
+            out.append([f'{k.__name__}.{n}', enc(v, ordered=True)])
+    return out
+
+
 def _state(obj):
     if isinstance(obj, type):
-        return {'cls': obj.__name__}
-    return enc(obj, ordered=True)
+        return {'obj': obj.__name__, 'vars': [['<class>', {'L': [{'L': [k, v]} for k, v in _class_attrs(obj)]}]]}
+    e = enc(obj, ordered=True)
+    if isinstance(e, dict) and 'vars' in e:
+        e = dict(e, vars=e['vars'] + [['<class>', {'L': [{'L': [k, v]} for k, v in _class_attrs(type(obj))]}]])
+    return e
+
+
+def _module_state():
+    """module-level data of the library (singletons, registries, constants)"""
+    out = []
+    for mod in _mods():
+        for n, v in vars(mod).items():
+            if n.startswith('__') or isinstance(v, (types.ModuleType, types.FunctionType, type)) or callable(v) and not hasattr(v, '__dict__'):
+                continue
+            if getattr(v, '__module__', None) == 'typing' or type(v).__module__ in ('typing', 'logging', 're'):
+                continue
+            out.append([f'{mod.__name__}.{n}', enc(v, ordered=True)])
+    return out
 
 
 def _model_state(t, obj):
@@ -1000,6 +1031,7 @@ def run_history(case):
     calls = case['calls']
     obs = {'fresh': [], 'shared': [], 'repeat': [], 'mutated': [], 'drift': [], 'mstate': [], 'defaults': []}
     pre = check_defaults()          # pollution left over by earlier cases is not this case's
+    m0 = _module_state()
     # fresh instances first (nothing of this history has happened yet)
     for i, c in enumerate(calls):
         t = T[names[c['t']]]
@@ -1039,6 +1071,10 @@ def run_history(case):
             obs['repeat'].append(None)
     bad += check_defaults()
     obs['defaults'] = bad
+    m1 = _module_state()
+    if m0 != m1:
+        ch = [k for (k, a), (_, b) in zip(m0, m1) if a != b] if len(m0) == len(m1) else ['<set of module globals>']
+        obs['drift'].append({'call': None, 'target': '<modules>', 'class': 'module', 'paths': ch, 'unmodelled': ch})
     return obs
 
 
@@ -1341,6 +1377,8 @@ def model_line(case):
 def _unmodelled(obs):
     for d in obs['drift']:
         if d['unmodelled']:
+            if d['class'] == 'module':
+                return f"unmodelled state: module-level data {d['unmodelled']} of the library changed during the history"
             return (f"unmodelled state: attribute(s) {d['unmodelled']} of the shared {d['class']} instance ({d['target']}) "
                     f"changed during call {d['call']} and no state-machine model covers them")
     return None
